@@ -310,3 +310,201 @@ Proof.
     rewrite Sx in Hi; [by apply Hum1|done|]. intros ->. done.
   - (* undef, buffer *) intros m Hm Hml Hum. eapply add_node_undef; [exact Ha|done|]. by eapply fr2_undef.
 Qed.
+
+(* ------------------------------------------------------------------ the invariant of the item fold *)
+Lemma sem_driver_ext v v' x d : (∀ s, s ∈ dep_ids d → v s = v' s) → sem_driver v x d = sem_driver v' x d.
+Proof.
+  destruct d as [e|t ins]; simpl; intros H; [by apply sem_cond_ext|]. f_equal.
+  induction ins as [|e ins IH]; [done|]. simpl in *. f_equal.
+  - apply sem_cond_ext. intros s Hs. apply H. set_solver.
+  - apply IH. intros s Hs. apply H. set_solver.
+Qed.
+Definition drv_ok (k : rctx) (nd : string * driver) : Prop :=
+  nd.1 ∈ k_rsv k ∧ (list_to_set (dep_ids nd.2) : gset string) ⊆ k_rsv k.
+(* P: the drivers processed so far *)
+Record rinv (k : rctx) (P : list (string * driver)) (g : circuit) (ge : gset string) : Prop := mk_rinv {
+  ri_gst : gst k (g, ge);
+  ri_ties : ties_ok k g;
+  ri_undef : ∀ n, n ∈ k_rsv k → n ∉ P.*1 → undef_ok g n;
+  ri_eq : ∀ n d, (n, d) ∈ P → ∀ v, consistent g v → v n = sem_driver v (v (k_tx k)) d;
+  ri_names : Forall (drv_ok k) P }.
+
+Lemma rinv_refine k P g ge g' ge' : rinv k P g ge → refines_rsv k g g' → gst k (g', ge') → ties_ok k g' →
+  (∀ n, n ∈ k_rsv k → n ∉ P.*1 → undef_ok g n → undef_ok g' n) → rinv k P g' ge'.
+Proof.
+  intros [G T U E N] Hr G' T' U'. split; try done.
+  - intros n Hn Hp. apply U'; auto.
+  - intros n d Hnd v Hv. destruct (Hr v Hv) as (v1 & C1 & A1 & X1). rewrite Forall_forall in N. destruct (N _ Hnd) as [Hn Hd]. simpl in *.
+    rewrite <- (A1 n Hn), <- X1. rewrite (E n d Hnd v1 C1). apply sem_driver_ext. intros s Hs. apply A1, Hd. by apply elem_of_list_to_set.
+Qed.
+Lemma rinv_add k P g ge n d : rinv k P g ge → drv_ok k (n, d) →
+  (∀ v, consistent g v → v n = sem_driver v (v (k_tx k)) d) → rinv k (P ++ [(n, d)]) g ge.
+Proof.
+  intros [G T U E N] Hd He. split; try done.
+  - intros m Hm Hp. apply U; [done|]. rewrite fmap_app in Hp. set_solver.
+  - intros m d' [Hin|Hin]%elem_of_app; [by apply E|]. apply elem_of_list_singleton in Hin. injection Hin as -> ->. done.
+  - apply Forall_app. split; [done|]. by constructor.
+Qed.
+
+Lemma rinv_step k P g ge g' ge' n d : rinv k P g ge → refines_rsv k g g' → gst k (g', ge') → ties_ok k g' → drv_ok k (n, d) →
+  (∀ v, consistent g' v → v n = sem_driver v (v (k_tx k)) d) →
+  (∀ m, m ∈ k_rsv k → m ∉ P.*1 → m ≠ n → undef_ok g m → undef_ok g' m) → rinv k (P ++ [(n, d)]) g' ge'.
+Proof.
+  intros [G T U E N] Hr G' T' Hd He U'. split; try done.
+  - intros m Hm Hp. rewrite fmap_app in Hp. apply U'; [done|set_solver|set_solver|]. apply U; [done|set_solver].
+  - intros m d' [Hin|Hin]%elem_of_app.
+    + intros v Hv. destruct (Hr v Hv) as (v1 & C1 & A1 & X1). rewrite Forall_forall in N. destruct (N _ Hin) as [Hn Hdd]. simpl in *.
+      rewrite <- (A1 m Hn), <- X1. rewrite (E m d' Hin v1 C1). apply sem_driver_ext. intros s Hs. apply A1, Hdd. by apply elem_of_list_to_set.
+    + apply elem_of_list_singleton in Hin. injection Hin as -> ->. done.
+  - apply Forall_app. split; [done|]. by constructor.
+Qed.
+
+Section fold.
+  Context (k : rctx).
+  Hypothesis Htr : ties k ## k_rsv k.
+
+  Lemma assigns_rinv l : ∀ st st' P, rfold (c_assign k) st l = Ok st' → rinv k P st.1 st.2 →
+    Forall (λ a : string * cond, drv_ok k (a.1, DAssign a.2)) l → NoDup (P.*1 ++ l.*1) →
+    rinv k (P ++ ((λ a : string * cond, (a.1, DAssign a.2)) <$> l)) st'.1 st'.2.
+  Proof.
+    induction l as [|[lv e] l IH]; intros st st' P H Hi Hok Hnd; simpl in H.
+    - injection H as <-. simpl. by rewrite app_nil_r.
+    - apply rbind_ok in H as (st1 & H1 & H2). inversion Hok as [|? ? [Hlv Hide] Hok']; subst. simpl in *.
+      pose proof Hi as [G T U E N].
+      assert (Hnp : lv ∉ P.*1). { apply NoDup_app in Hnd as (_ & Hd & _). intros Hin. apply (Hd lv Hin). by left. }
+      assert (Gst : gst k st) by (by destruct st).
+      destruct (c_assign_step k st lv e st1 Htr H1 Gst T Hide Hlv (U lv Hlv Hnp)) as (G1 & T1 & U1 & R1 & E1).
+      assert (Hi1 : rinv k (P ++ [(lv, DAssign e)]) st1.1 st1.2).
+      { eapply rinv_step; [exact Hi|exact R1|by destruct st1|done|done|exact E1|]. intros m Hm Hp Hne Hu. by apply U1. }
+      specialize (IH st1 st' _ H2 Hi1 Hok'). rewrite <- app_assoc in IH. apply IH.
+      rewrite fmap_app. simpl. rewrite <- app_assoc. simpl.
+      apply NoDup_app in Hnd as (N1 & N2 & N3). apply NoDup_cons in N3 as [N3 N4].
+      apply NoDup_app. split; [done|]. split.
+      + intros x Hx [->|Hin]%elem_of_cons; [done|]. apply (N2 x Hx). by right.
+      + by constructor.
+  Qed.
+
+  Lemma inputs_rinv ns : ∀ g g' ge P, rfold (λ g n, r ← add_node (k_rsv k) g n Input [] false; Ok r.1) g ns = Ok g' →
+    rinv k P g ge → (∀ n, n ∈ ns → n ∈ k_rsv k ∧ n ∉ P.*1) → rinv k P g' ge.
+  Proof.
+    induction ns as [|n ns IH]; intros g g' ge P H Hi Hns; simpl in H; [by injection H as <-|].
+    apply rbind_ok in H as (g1 & H1 & H2). apply mbind_ok in H1 as ([g1' nm] & H1 & E). injection E as <-. simpl in *.
+    destruct (Hns n) as [Hn Hnp]; [by left|]. pose proof Hi as [G T U Eq N].
+    eapply IH; [exact H2| |intros; apply Hns; by right].
+    eapply rinv_refine; [exact Hi| | | |].
+    - apply refines_same. intros v. eapply add_node_consistent; [exact H1|]. by apply U.
+    - by eapply add_node_gst.
+    - by eapply add_node_ties.
+    - intros m Hm Hp Hu. destruct (decide (m = n)) as [->|Hne].
+      + apply add_node_shape in H1 as (Hl & _). intros i Hi'. rewrite Hl in Hi'. injection Hi' as <-. simpl. split; [|done].
+        assert (fanin g n = ∅) as ->; [|set_solver]. unfold fanin. destruct (g !! n) as [j|] eqn:Ej; [|done]. simpl. by destruct (Hu j Ej).
+      + by eapply add_node_undef.
+  Qed.
+
+  (* ---- primitive instances ---- *)
+  Definition opsem (g : circuit) (e : cond) (r : string) : Prop := ∀ v, consistent g v → v r = sem_cond v (v (k_tx k)) e.
+  Lemma opsem_mono (g g' : circuit) l rs : (∀ v, consistent g' v → consistent g v) → Forall2 (opsem g) l rs → Forall2 (opsem g') l rs.
+  Proof. intros Hc H. eapply Forall2_impl; [exact H|]. intros e r Ho v Hv. apply Ho. by apply Hc. Qed.
+  Lemma compile_list l : ∀ st st' rs, rmapS (c_cond k) st l = Ok (st', rs) → ties_ok k st.1 →
+    st.1 ⊆ st'.1 ∧ Forall2 (opsem st'.1) l rs.
+  Proof.
+    induction l as [|e l IH]; intros st st' rs H Ht; simpl in H.
+    - injection H as <- <-. split; [done|constructor].
+    - apply rbind_ok in H as ([st1 r1] & H1 & H). apply rbind_ok in H as ([st2 rs2] & H2 & H). simpl in *. injection H as <- <-.
+      destruct (compile_cond_ok e k st st1 r1 H1) as [S1 V1]. destruct (IH _ _ _ H2 (ties_mono _ _ _ S1 Ht)) as [S2 F2].
+      split; [by etrans|]. constructor; [|done]. intros v Hv. apply V1; [done|]. by eapply consistent_mono.
+  Qed.
+  Definition cgood (g : circuit) (ic : string * conns) (cc : string * cconns) : Prop :=
+    ∃ n ins rs, ic.2 = Positional (cid n :: ins) ∧ cc.2 = CPos (n :: rs) ∧ Forall2 (opsem g) ins rs.
+  Lemma cgood_mono (g g' : circuit) l cl : (∀ v, consistent g' v → consistent g v) → Forall2 (cgood g) l cl → Forall2 (cgood g') l cl.
+  Proof.
+    intros Hc H. eapply Forall2_impl; [exact H|]. intros ic cc (n & ins & rs & E1 & E2 & F). exists n, ins, rs. split; [done|]. split; [done|].
+    by eapply opsem_mono.
+  Qed.
+  Lemma insts_compile_prim insts : ∀ st st' cl, rmapS (inst_step k) st insts = Ok (st', cl) → ties_ok k st.1 →
+    Forall (λ ic : string * conns, ∃ n ins, ic.2 = Positional (cid n :: ins)) insts →
+    st.1 ⊆ st'.1 ∧ Forall2 (cgood st'.1) insts cl.
+  Proof.
+    induction insts as [|ic insts IH]; intros st st' cl H Ht HF; simpl in H.
+    - injection H as <- <-. split; [done|constructor].
+    - inversion HF as [|? ? (n & ins & E) HF']; subst.
+      apply rbind_ok in H as ([st1 c1] & H1 & H). apply rbind_ok in H as ([st2 c2] & H2 & H). simpl in *. injection H as <- <-.
+      unfold inst_step in H1. apply mbind_ok in H1 as ([st1' cc] & H1 & E1). injection E1 as <- <-.
+      rewrite E in H1. unfold c_conns in H1. apply mbind_ok in H1 as ([st1'' rs] & H1 & E1). injection E1 as <- <-.
+      destruct (compile_list _ _ _ _ H1 Ht) as [S1 F1]. simpl in *.
+      change (rmapS (c_cond k) st (cid n :: ins)) with
+        (rbind (c_cond k st (cid n)) (λ x, rbind (rmapS (c_cond k) x.1 ins) (λ y, Ok (y.1, x.2 :: y.2)))) in H1.
+      change (c_cond k st (cid n)) with (Ok (st, n) : res (cstate * string)) in H1. simpl in H1.
+      apply rbind_ok in H1 as ([st3 rs3] & H3 & H4). injection H4 as <- <-.
+      destruct (IH _ _ _ H2 (ties_mono _ _ _ S1 Ht) HF') as [S2 F2]. split; [by etrans|]. constructor; [|done].
+      exists n, ins, rs3. split; [done|]. split; [done|]. inversion F1 as [|? ? ? ? _ F1']; subst.
+      eapply opsem_mono; [|exact F1']. intros v. by apply consistent_mono.
+  Qed.
+
+  Lemma prim_instance_sel t g nm n rs : prim_instance k t g (nm, CPos (n :: rs)) =
+    (r ← add_node (k_rsv k) g n (prim_sel k t rs).1 (prim_sel k t rs).2 false; Ok r.1).
+  Proof.
+    unfold prim_instance, prim_sel. simpl. destruct (bool_decide (t = Xor) || bool_decide (t = Xnor)); [|done].
+    by destruct (parity_ops rs).
+  Qed.
+  Lemma node_val8 (c : circuit) v n t (s : gset string) : consistent c v → c !! n = Some (mk_node t false s) → s ≠ ∅ →
+    t ∈ gate_types → v n = gate_val t v s.
+  Proof.
+    intros Hc Hn Hs Ht. specialize (Hc n _ Hn). unfold node_ok, is_free in Hc. simpl in Hc.
+    unfold gate_types in Ht. rewrite !elem_of_cons, elem_of_nil in Ht.
+    destruct Ht as [->|[->|[->|[->|[->|[->|[->|[->|[]]]]]]]]]; simpl in Hc; try done; by rewrite bool_decide_eq_false_2 in Hc.
+  Qed.
+  Lemma prim_sel_type t rs : t ∈ gate_types → (prim_sel k t rs).1 ∈ gate_types.
+  Proof.
+    intros Ht. unfold prim_sel. destruct (bool_decide (t = Xor) || bool_decide (t = Xnor)); [|done].
+    destruct (parity_ops rs); [|done]. unfold gate_types. set_solver.
+  Qed.
+  Lemma prim_sel_ne t rs : rs ≠ [] → (prim_sel k t rs).2 ≠ [].
+  Proof.
+    intros Hne. unfold prim_sel. destruct (bool_decide (t = Xor) || bool_decide (t = Xnor)); [|done]. by destruct (parity_ops rs).
+  Qed.
+  Lemma fmap_opsem g ins rs v : Forall2 (opsem g) ins rs → consistent g v → v <$> rs = sem_cond v (v (k_tx k)) <$> ins.
+  Proof. induction 1 as [|e r ins rs Ho _ IH]; intros Hv; [done|]. rewrite !fmap_cons. by rewrite (Ho v Hv), IH. Qed.
+
+  (* what the guard says about one instance of primitive t *)
+  Definition prim_guard (t : gtype) (ic : string * conns) : Prop :=
+    ∃ n ins, ic.2 = Positional (cid n :: ins) ∧ drv_ok k (n, DPrim t ins) ∧ ins ≠ [] ∧ (t = Buf ∨ t = Not → length ins = 1).
+  Definition prim_drv (t : gtype) (ic : string * conns) : list (string * driver) :=
+    match ic.2 with Positional (o :: ins) => match as_id o with Some n => [(n, DPrim t ins)] | None => [] end | _ => [] end.
+
+  Lemma prims_rinv t cl : ∀ insts g g' ge P, rfold (prim_instance k t) g cl = Ok g' → rinv k P g ge →
+    Forall2 (cgood g) insts cl → t ∈ gate_types → Forall (prim_guard t) insts →
+    NoDup (P.*1 ++ (insts ≫= prim_drv t).*1) → rinv k (P ++ (insts ≫= prim_drv t)) g' ge.
+  Proof.
+    induction cl as [|cc cl IH]; intros insts g g' ge P H Hi HF Ht HG Hnd; simpl in H.
+    - injection H as <-. inversion HF; subst. simpl. by rewrite app_nil_r.
+    - inversion HF as [|ic ? insts' ? (n & ins & rs & E1 & E2 & Fo) HF']; subst.
+      inversion HG as [|? ? (n' & ins' & E1' & Hdrv & Hne & Har) HG']; subst.
+      rewrite E1 in E1'. injection E1' as <- <-.
+      apply rbind_ok in H as (g1 & H1 & H2). destruct cc as [nm cc2]. simpl in E2. subst cc2. rewrite prim_instance_sel in H1.
+      apply mbind_ok in H1 as ([g1x nm'] & Ha & E). injection E as E. simpl in E. subst g1x. simpl in *.
+      assert (Hdr : prim_drv t ic = [(n, DPrim t ins)]). { unfold prim_drv. by rewrite E1. }
+      cbn [mbind list_bind] in Hnd |- *. fold (mbind (M:=list) (prim_drv t)) in Hnd |- *. rewrite Hdr in Hnd |- *.
+      pose proof Hi as [G T U Eq N]. destruct Hdrv as [Hn Hids].
+      assert (Hnp : n ∉ P.*1). { apply NoDup_app in Hnd as (_ & Hd & _). intros Hin. apply (Hd n Hin). simpl. by left. }
+      pose proof (U n Hn Hnp) as Hun.
+      assert (Hcons : ∀ v, consistent g1 v → consistent g v) by (intros v; by eapply add_node_consistent).
+      assert (Hrs : rs ≠ []). { intros ->. inversion Fo; subst. done. }
+      pose proof (prim_sel_ne t rs Hrs) as Hfi.
+      assert (Hi1 : rinv k (P ++ [(n, DPrim t ins)]) g1 ge).
+      { eapply rinv_step; [exact Hi|by apply refines_same|by eapply add_node_gst|by eapply add_node_ties|by split| |].
+        - intros v Hv. pose proof Ha as Hsh. apply add_node_shape in Hsh as (Hl & _).
+          assert (fanin g n = ∅) as Hf0. { unfold fanin. destruct (g !! n) as [j|] eqn:Ej; [|done]. simpl. by destruct (Hun j Ej). }
+          rewrite Hf0 in Hl.
+          assert (Ht1 : ties_ok k g1) by (by eapply add_node_ties).
+          destruct (prim_sel_value k t rs v) as [_ Hval]; [done|done| |by eapply tie0_val|by eapply tie1_val|].
+          { intros Hb. rewrite <- (Forall2_length _ _ _ Fo). by apply Har. }
+          rewrite (node_val8 g1 v n _ _ Hv Hl); [| |by apply prim_sel_type].
+          + replace (∅ ∪ list_to_set (prim_sel k t rs).2 : gset string) with (list_to_set (prim_sel k t rs).2 : gset string) by set_solver.
+            rewrite Hval. simpl. f_equal. apply (fmap_opsem g); [done|by apply Hcons].
+          + destruct (prim_sel k t rs).2; [done|set_solver].
+        - intros m Hm Hp Hne' Hu. by eapply add_node_undef. }
+      specialize (IH insts' g1 g' ge _ H2 Hi1 (cgood_mono _ _ _ _ Hcons HF') Ht HG').
+      rewrite <- app_assoc in IH. apply IH. rewrite fmap_app. rewrite <- app_assoc. done.
+  Qed.
+End fold.
